@@ -454,6 +454,27 @@ func c15One(c *fw.Ctx, g *xgram.Grammar, probeStart int) (res c15Result) {
 			topSetOf[nt.Alts[0].Parts[0]] = nt.Name
 		}
 	}
+	// With template parameters only the nonterminals reachable from the inputs and
+	// from the sets are instantiated; an in-rule set inside a template without any
+	// instance is still resolved but has no nonterminal.
+	owner := map[*xgram.Expr]int{}
+	for ti, nt := range g.Nonterms {
+		for _, a := range nt.Alts {
+			for _, part := range a.Parts {
+				part.Walk(func(e *xgram.Expr) {
+					if e.Kind == xgram.KSet {
+						owner[e] = ti
+					}
+				})
+			}
+		}
+	}
+	instantiated := map[int]bool{}
+	for _, nt := range p.Nonterms {
+		if nt.User {
+			instantiated[nt.Templ] = true
+		}
+	}
 	for i, e := range g.RuleSets {
 		want := sets.RuleSets[i]
 		idx := -1
@@ -465,6 +486,10 @@ func c15One(c *fw.Ctx, g *xgram.Grammar, probeStart int) (res c15Result) {
 			idx = j
 		}
 		if idx < 0 {
+			if len(g.Params) > 0 && !instantiated[owner[e]] {
+				c.Count("rule_sets_in_templates_without_instances", 1)
+				continue
+			}
 			if e.Set.Op == xgram.SNamed {
 				c.Count("rule_sets_sharing_a_nonterminal", 1) // set(name) twice: one nonterminal is reused
 				continue
